@@ -55,6 +55,8 @@ def containers_of(a, v):
 
 
 class World(object):
+    wname = "w1"         # the name under the wildcard this world uses (a new one per history: its first use resolves it)
+
     def __init__(self):
         build.install()
         from . import defclasses as dc
@@ -66,6 +68,9 @@ class World(object):
         self.objs = [None] * (NINST + 1)
         self.logs = [None] + [[] for _ in range(NINST)]
         self.regs = [0] * (NINST + 1)
+        self.wobs = [0] * (NINST + 1)
+        self.waiting = [0] * (NINST + 1)      # observers registered while the wildcard name was still unresolved in the class
+        self.resolved_by = 0                  # the instance whose use resolved the name (0: nobody yet)
         self.create(1)
 
     def create(self, k):
@@ -75,13 +80,15 @@ class World(object):
         o = self.objs[k]
         if o is None:
             return {"vals": {a: {"set": 0, "v": zero(a)} for a in ATTRS}, "runs": {a: 0 for a in DYNAMIC}, "calls": 0,
-                    "extra": {"set": 0, "v": []}}
+                    "extra": {"set": 0, "v": []}, "w": {"set": 0, "v": 0}}
         d = o.__dict__
         vals = {a: ({"set": 1, "v": contents(a, d[a])} if a in d else {"set": 0, "v": zero(a)}) for a in ATTRS}
         runs = {a: self.dc.COUNTS.get((id(o), a), 0) for a in DYNAMIC}
         extra = {"set": 1, "v": list(d["extra"])} if "extra" in o._instance_traits() and "extra" in d else \
                 {"set": 1 if "extra" in o._instance_traits() else 0, "v": []}
-        return {"vals": vals, "runs": runs, "calls": len(self.logs[k]), "extra": extra}
+        wv = d.get(self.wname, 0)
+        return {"vals": vals, "runs": runs, "calls": len(self.logs[k]), "extra": extra,
+                "w": {"set": 1 if self.wname in d else 0, "v": wv if type(wv) is int else -7}}
 
     def shared(self):
         seen = {}
@@ -176,6 +183,17 @@ class World(object):
                 o.on_trait_change(h_legacy, "extra_items")
             elif op == "mutate_extra":
                 o.extra.append(9)
+            elif op == "wobserve":
+                from traits.observation.api import trait
+                _, h_obs = self.handler_for(k)
+                o.observe(h_obs, trait(self.wname, optional=True))
+                self.wobs[k] += 1
+                if self.resolved_by == 0:
+                    self.waiting[k] += 1
+            elif op == "wassign":
+                if self.resolved_by == 0:
+                    self.resolved_by = k
+                setattr(o, self.wname, v)
             elif op == "touch_undeclared":
                 try:
                     o.zzz_undeclared
@@ -194,6 +212,7 @@ class World(object):
 
 def run_history(rnd, steps, t):
     w = World()
+    w.wname = "w%d_%d" % (t, rnd.randint(0, 10 ** 6))
     created = {1}
     out = []
     has_extra = set()
@@ -230,14 +249,22 @@ def run_history(rnd, steps, t):
                 op = "mutate_extra"
             elif u > 0.985:
                 op = "touch_undeclared"
+            elif u > 0.955:
+                op = "wobserve"
+            elif u > 0.92:
+                op, v = "wassign", rnd.choice([3, 9])
             else:
                 op, a = "read", rnd.choice(ATTRS)
         regs_before = w.regs[k]
+        wobs_before = w.wobs[k]
+        # known finding F12, second symptom: the name was resolved (and cached in the class) by ANOTHER instance's use, so
+        # this instance's waiting observers never hear that the trait appeared
+        kf12w = 1 if (op == "wassign" and w.waiting[k] > 0 and w.resolved_by not in (0, k)) else 0
         ret = w.do(k, op, a, v)
         post = [w.view(k2) for k2 in range(1, NINST + 1)]
         if op == "read" and not isinstance(ret, str):
             pass
-        out.append({"tid": t, "step": s, "op": op, "actor": k, "a": a, "v": v, "ret": ret, "regs": regs_before,
+        out.append({"tid": t, "step": s, "op": op, "actor": k, "a": a, "v": v, "ret": ret, "regs": regs_before, "wobs": wobs_before, "kf12w": kf12w, "waiting": w.waiting[k],
                     "sub": [0] * (NINST - 1) + [1], "pre": pre, "post": post, "shared": w.shared(),
                     "classeq": 1 if w.classview() == cv else 0})
         if op == "delete" and ret != "ok":
@@ -265,7 +292,10 @@ def run(rep, tier, seed):
         rep.case(n)
 
         def sig_of(rec, cl):
-            if cl == ["C10-class-changed"] and rec["op"] == "touch_undeclared":
+            if cl == ["KF12"]:
+                return "C10:F12:undeclared-name-lookup-cached-in-class"
+            if cl == ["C10-class-changed"] and rec["op"] in ("touch_undeclared", "wassign", "wobserve"):
+                # (the first use of a name under a wildcard is resolved - and cached - in the class: the same mechanism)
                 return "C10:F12:undeclared-name-lookup-cached-in-class"
             return "C10:judge:%s:%s:%s" % (rec["op"], rec["a"] if rec["op"] in ("read", "mutate", "assign", "delete") else "",
                                            "+".join(cl))
